@@ -151,7 +151,9 @@ CHECKS = {
                 "jump, transfer_model; after every transfer the result is compared with a fresh compile of the current "
                 "sources. distinct_nontrivial = distinct (model, option set, pending invalidation causes, same process?, "
                 "cache present?) states at a transfer. Config codegen: the same with compiled shared libraries, every "
-                "simulated process a real child interpreter, short histories (a build costs seconds).",
+                "simulated process a real child interpreter, short histories (a build costs seconds). Config edit_race: an "
+                "editor saves a source file at a plan-chosen file operation of 1-2 running transfer_model calls (seeded "
+                "schedules); overlapping calls may return either version, a later call must return the new one.",
         "assumptions": ["mtime_check=False, switching to a library folder whose files are OLDER than the cache, edits with preserved/older mtimes and "
                         "deletions are outside the property's precondition and not generated",
                         "codegen: the C compiler and linker run for real and are not interleaved with anything"],
